@@ -12,7 +12,13 @@ import urllib.request
 import common
 from common import Prop, nlist, canon
 
-from circuits.web import tools, _httpauth
+import socket
+
+from circuits import BaseComponent, Manager, handler
+from circuits.net.events import read as read_event
+from circuits.web import Controller, tools, _httpauth
+from circuits.web.dispatchers import Dispatcher
+from circuits.web.http import HTTP
 from circuits.web import sessions as sessions_mod
 from circuits.web.dispatchers.virtualhosts import VirtualHosts
 from circuits.web.headers import Headers
@@ -93,6 +99,86 @@ def make_users(kind, pairs):
     if kind == 'cdict':
         return lambda: dict(d)
     return lambda username: d.get(username)
+
+
+# ------------------------------------------------------------------ end-to-end: the whole HTTP stack, no real socket
+
+SECRET = 'the-protected-result'
+
+
+class FakeSock(socket.socket):
+    def __init__(self):
+        pass
+
+    def getpeername(self):
+        return ('10.0.0.1', 5555)
+
+    def close(self):
+        pass
+
+    def fileno(self):
+        return -1
+
+    def __del__(self):
+        pass
+
+
+class FakeServer(BaseComponent):
+    channel = 'web'
+    host = '127.0.0.1'
+    port = 80
+    secure = False
+    display_banner = False
+
+
+class WriteProbe(BaseComponent):
+    channel = 'web'
+
+    def init(self):
+        self.out = []
+
+    @handler('write', priority=100)
+    def _on_write(self, sock, data):
+        self.out.append(data)
+
+
+def e2e_run(c):
+    """GET/POST / with the case's Authorization value through HTTP + Dispatcher + a Controller that protects
+    SECRET with the documented idioms -> (status code, SECRET in the bytes written)"""
+    users = make_users(c['ukind'], c['users'])
+    realm, enc, seen = c['realm'], ENC[c['enc']], {}
+
+    class Root(Controller):
+        def index(self):
+            seen['hdr'] = self.request.headers.get('Authorization')
+            if c['fn'] == 'digest':        # circuits.web.main style
+                r = tools.digest_auth(self.request, self.response, realm, users)
+                return SECRET if r is None else r
+            if tools.check_auth(self.request, self.response, realm, users, enc):   # tests / examples style
+                return SECRET
+            return tools.basic_auth(self.request, self.response, realm, users, enc)
+
+    m = Manager()
+    srv = FakeServer().register(m)
+    srv.http = HTTP(srv).register(srv)
+    Dispatcher().register(srv)
+    Root().register(srv)
+    probe = WriteProbe().register(m)
+    for _ in range(6):
+        m.flush()
+    req = '%s / HTTP/1.1\r\nHost: h.example\r\nContent-Length: 0\r\n' % c['method']
+    if c['hdr'] is not None:
+        req += 'Authorization: %s\r\n' % c['hdr']
+    m.fire(read_event(FakeSock(), (req + '\r\n').encode('latin-1')), 'web')
+    for _ in range(60):
+        m.flush()
+    out = b''.join(probe.out)
+    status = int(out.split(b' ', 2)[1]) if out.startswith(b'HTTP/') else 0
+    return status, SECRET.encode() in out, seen.get('hdr')
+
+
+def e2e_ok_header(h):
+    return h is None or (h != '' and h.isascii() and h.isprintable() and h == h.strip())
 
 
 # ------------------------------------------------------------------ independent RFC 2617 arithmetic (generator + oracle)
@@ -254,7 +340,8 @@ def gen_auth_case(rng):
     elif sec < 0.82:
         secret, right = 'None', entry == 'None'
     else:
-        secret = rng.choice(PASSWORDS + ['x', str(entry)])
+        e_ = entry if entry else 'pw'
+        secret = rng.choice(PASSWORDS + ['x', str(entry), e_[:-1], e_[1:], e_ + 'x', e_.upper(), e_ + ':', ''])
         right = entry is not None and secret == entry
     tag = []
     if clean:
@@ -353,7 +440,7 @@ def auth_table():
     out = []
     users = [['admin', 'pw'], ['bob', 'None']]
     for fn, scheme, user, secret, crealm, cmethod in itertools.product(
-            ['basic', 'digest', 'check'], ['Basic', 'Digest'], ['admin', 'bob', 'mallory'], ['pw', 'None', 'x'],
+            ['basic', 'digest', 'check'], ['Basic', 'Digest'], ['admin', 'bob', 'mallory'], ['pw', 'None', 'x', '', 'p'],
             ['R', 'S'], ['GET', 'POST']):
         if scheme == 'Basic' and (crealm != 'R' or cmethod != 'GET'):
             continue
@@ -379,7 +466,21 @@ def auth_table():
     return out
 
 
-COOKIE_ALPHA = '0123456789abcdef'
+def e2e_table():
+    out = []
+    users = [['admin', 'pw']]
+    for fn in ('basic', 'digest'):
+        for hdr in [None, 'Basic ' + b64s('admin:pw'), 'Basic ' + b64s('admin:px'), 'Basic ' + b64s('mallory:None'),
+                    'Basic', 'Bearer x', 'Basic !!!!', 'Basic YQ', 'Digest username="a"', 'Digest username',
+                    digest_header('admin', 'R', 'pw', 'GET', qop='auth'), digest_header('admin', 'R', 'px', 'GET'),
+                    digest_header('mallory', 'R', 'None', 'GET'), digest_header('admin', 'S', 'pw', 'GET'),
+                    digest_header('admin', 'R', 'pw', 'GET', drop=('nonce',)),
+                    digest_header('admin', 'R', 'pw', 'GET', qop='auth-int')]:
+            out.append({'k': 'e2e', 'fn': fn, 'enc': 0 if fn == 'digest' else 1, 'ukind': 'dict', 'users': users,
+                        'realm': 'R', 'method': 'GET', 'hdr': hdr, 'tag': 'e2e-table'})
+    return out
+
+
 
 
 def fp(ip, agent):
@@ -395,7 +496,7 @@ def gen_sess_case(rng):
     reqs, issued = [], []
     for i in range(n):
         ip, agent = rng.choice(IPS[:3]), rng.choice(AGENTS[:4])
-        uid = '%032x' % (rng.getrandbits(120) * 256 + i)
+        uid = '%08x' % (rng.getrandbits(24) * 256 + i)
         r = rng.random()
         if not issued or r < 0.15:
             cookie = None
@@ -421,7 +522,7 @@ def gen_sess_case(rng):
 
 def sess_table():
     out = []
-    u0, u1 = 'a' * 32, 'b' * 32
+    u0, u1 = 'a' * 8, 'b' * 8
     first = {'cookie': None, 'ip': '10.0.0.1', 'agent': 'UA', 'act': ['w', 7], 'uuid': u0}
     sid = u0 + '/' + fp('10.0.0.1', 'UA')
     for ip, agent in itertools.product(['10.0.0.1', '10.0.0.2'], ['UA', 'UB', None]):
@@ -458,6 +559,8 @@ def gen_vhost_case(rng):
 # ------------------------------------------------------------------ Coq literals
 
 def cstr(s):
+    if s and all(32 <= ord(ch) <= 126 for ch in s):
+        return '(s2l "%s"%%string)' % s.replace('"', '""')
     return nlist(s)
 
 
@@ -473,7 +576,7 @@ class C20(Prop):
     id = 'C20'
     props_file = 'Props/C20.v'
     imports = ['Model.Auth', 'Model.AuthObs', 'Model.Session', 'Model.SessionObs', 'Model.VHost', 'Model.VHostObs']
-    quick_n = 900
+    quick_n = 650
     thorough_n = 12000
     rule = ('auth: user tables (0-3 users, dict / callable) x realm x method x Authorization values from a grammar of both '
             'schemes (right / wrong / "None" / derived secrets, users absent from the table, dropped / extra / duplicated '
@@ -498,10 +601,15 @@ class C20(Prop):
 
     # ---- cases
     def generate(self, rng, n, tier):
-        cases = auth_table() + sess_table() + vhost_table()
+        cases = auth_table() + e2e_table() + sess_table() + vhost_table()
         for i in range(n):
             r = rng.random()
-            if r < 0.62:
+            if r < 0.05:
+                c = gen_auth_case(rng)
+                if c['fn'] != 'check' and c['method'] != 'HEAD' and e2e_ok_header(c['hdr']):
+                    c['k'] = 'e2e'
+                cases.append(c)
+            elif r < 0.62:
                 cases.append(gen_auth_case(rng))
             elif r < 0.80:
                 cases.append(gen_sess_case(rng))
@@ -515,6 +623,12 @@ class C20(Prop):
         self.stats['kinds'][k] = self.stats['kinds'].get(k, 0) + 1
         if k == 'auth':
             obs = self.impl_auth(c)
+        elif k == 'e2e':
+            with Md5Trace() as tr:
+                status, secret, seen = e2e_run(c)
+            if seen is not None and seen != c['hdr']:
+                raise AssertionError('harness: header %r arrived as %r' % (c['hdr'], seen))
+            obs = {'status': status, 'secret': secret, 'md5': sorted(tr.table.items())}
         elif k == 'sess':
             obs = self.impl_sess(c)
         elif k == 'vhost':
@@ -613,7 +727,7 @@ class C20(Prop):
             self.safe_impl_cached(c)
         obs = self._cache.get(key)
         k = c['k']
-        if k == 'auth':
+        if k in ('auth', 'e2e'):
             hdr = c['hdr']
             b64t, utf8t, keqvt = [], [], []
             if hdr is not None and ' ' in hdr:
@@ -639,7 +753,8 @@ class C20(Prop):
             md5t = list(obs.get('md5', [])) if isinstance(obs, dict) else []
             if c['enc'] == 2 and hdr is not None:      # the configured encrypt hashes the presented password
                 md5t = md5t + [[p, md5hex(p)] for p in self._basic_passwords(hdr)]
-            return 'obs_auth [%s] [%s] %s [%s] %d%%nat %d%%nat %s %s %s %s' % (
+            return '%s [%s] [%s] %s [%s] %d%%nat %d%%nat %s %s %s %s' % (
+                'obs_auth' if k == 'auth' else 'obs_served',
                 '; '.join(b64t), '; '.join(utf8t), cpairs(md5t), '; '.join(keqvt),
                 1 if c['fn'] == 'digest' else 0, c['enc'], copt(hdr, cstr), cstr(c['method']), cstr(c['realm']),
                 cpairs(c['users']))
@@ -682,6 +797,8 @@ class C20(Prop):
         k = c['k']
         if k == 'auth':
             return [obs['tag'], obs['login']]
+        if k == 'e2e':
+            return bool(obs['secret'])
         if k == 'sess':
             return obs
         return obs['path']
@@ -713,6 +830,18 @@ class C20(Prop):
                 for u, _ in c['users']:
                     if verifies(c, u) and self._plain(c):
                         return 'credentials that verify against the entry of %r were refused' % u
+            return None
+        if k == 'e2e':
+            ok = any(verifies(c, u) for u, _ in c['users'])
+            if obs['secret'] and not ok:
+                return ('the protected result was sent (status %d) for an Authorization value that verifies against no '
+                        'entry of %r' % (obs['status'], c['users']))
+            if obs['secret'] and obs['status'] != 200:
+                return 'the protected result was sent with status %d' % obs['status']
+            if not obs['secret'] and ok and self._plain(c):
+                return 'valid credentials did not obtain the protected result (status %d)' % obs['status']
+            if not obs['secret'] and not 400 <= obs['status'] < 600:
+                return 'refused request answered with status %d' % obs['status']
             return None
         if k == 'sess':
             served = {}      # sid -> fingerprint of the requests it was served to
@@ -771,7 +900,7 @@ class C20(Prop):
 
     def nontrivial(self, c, obs):
         k = c['k']
-        if k == 'auth':
+        if k in ('auth', 'e2e'):
             return c['hdr'] is not None
         if k == 'sess':
             return any(r['cookie'] is not None for r in c['reqs'])
